@@ -102,6 +102,9 @@ func (s *Solver) Check(decls []string, asserts []string, evals []string) (string
 		sb.WriteString("(set-logic ALL)\n")
 	}
 	body := strings.Join(decls, "\n") + "\n" + strings.Join(asserts, "\n")
+	if len(evals) > 0 {
+		body += "\n" + strings.Join(evals, "\n")
+	}
 	sb.WriteString("(declare-fun blen (Int) (_ BitVec 64))\n(declare-fun rlen (Int) (_ BitVec 64))\n")
 	sb.WriteString(tokenPreamble(body))
 	for _, d := range decls {
